@@ -622,3 +622,355 @@ Section CollOps.
     cbn [loc_of]. rewrite bind_ret_l. destruct (R l eq_refl). apply with_item_inplace_coll; auto.
   Qed.
 End CollOps.
+
+(* ------------------------------------------------------------------ *)
+(** * without_<item>(..., _inplace=True) *)
+Lemma T_reassoc {A B} (P : heap_t -> Prop) (m : M A) (c : val) (k : val -> M B)
+      (Q : B -> heap_t -> Prop) (E : heap_t -> Prop) :
+  T P (c' <- (m ;;; ret c) ;; k c') Q E -> T P (m ;;; k c) Q E.
+Proof.
+  intros H s Ps. specialize (H s Ps). unfold bind in *. destruct (m s) as [[u|e] s1]; simpl in *; exact H.
+Qed.
+
+Lemma T_read_list (P : heap_t -> Prop) c (E : heap_t -> Prop) :
+  (forall h, P h -> E h) ->
+  T P (read_list (VRef c)) (fun p h => P h /\ fst p = c /\ nth_error h c = Some (OList (snd p))) E.
+Proof.
+  intros HE s Ps. unfold read_list, loc_of_t, read, bind, ret, fail.
+  destruct (nth_error (heap s) c) as [[]|] eqn:N; simpl; auto.
+Qed.
+Lemma T_read_dict (P : heap_t -> Prop) c (E : heap_t -> Prop) :
+  (forall h, P h -> E h) ->
+  T P (read_dict (VRef c)) (fun p h => P h /\ fst p = c /\ nth_error h c = Some (ODict (snd p))) E.
+Proof.
+  intros HE s Ps. unfold read_dict, loc_of_t, read, bind, ret, fail.
+  destruct (nth_error (heap s) c) as [[]|] eqn:N; simpl; auto.
+Qed.
+Lemma T_read_set (P : heap_t -> Prop) c (E : heap_t -> Prop) :
+  (forall h, P h -> E h) ->
+  T P (read_set (VRef c)) (fun p h => P h /\ fst p = c /\ nth_error h c = Some (OSet (snd p))) E.
+Proof.
+  intros HE s Ps. unfold read_set, loc_of_t, read, bind, ret, fail.
+  destruct (nth_error (heap s) c) as [[]|] eqn:N; simpl; auto.
+Qed.
+
+Section Remove.
+  Variable ct : ctable.
+  Hypothesis Hflat : flat_table ct.
+  Notation IF := (IF ct).
+  Notation Inv := (Inv ct).
+
+  (* o is obtained from o0 by dropping elements *)
+  Definition sub_obj (o o0 : obj) : Prop :=
+    match o0, o with
+    | OList xs, OList xs' | OSet xs, OSet xs' => forall f : val -> bool, forallb f xs = true -> forallb f xs' = true
+    | ODict xs, ODict xs' => forall f : val * val -> bool, forallb f xs = true -> forallb f xs' = true
+    | _, _ => False
+    end.
+
+  Lemma conf_shrink h fc t o0 o :
+    scalar_coll t = true -> check_type FUEL ct h (VRef fc) t = true ->
+    nth_error h fc = Some o0 -> sub_obj o o0 ->
+    check_type FUEL ct (set_nth fc o h) (VRef fc) t = true /\ shape o = shape o0.
+  Proof.
+    intros St C N Sub. destruct FUEL_SS as [f Ef]. rewrite Ef in *.
+    destruct t; simpl in St; try discriminate.
+    - change (match nth_error h fc with
+              | Some (OList xs) => forallb (fun x => check_type (S f) ct h x t) xs
+              | _ => false end = true) in C.
+      rewrite N in C. destruct o0; try discriminate. destruct o; simpl in Sub; try contradiction.
+      split; auto. eapply coll_write_list; eauto. now apply scalar_simple.
+    - apply andb_true_iff in St. destruct St as [S1 S2].
+      change (match nth_error h fc with
+              | Some (ODict kvs) => forallb (fun p => check_type (S f) ct h (fst p) t1
+                                                     && check_type (S f) ct h (snd p) t2) kvs
+              | _ => false end = true) in C.
+      rewrite N in C. destruct o0; try discriminate. destruct o; simpl in Sub; try contradiction.
+      split; auto. eapply coll_write_dict; eauto; now apply scalar_simple.
+    - change (match nth_error h fc with
+              | Some (OSet xs) => forallb (fun x => check_type (S f) ct h x t) xs
+              | _ => false end = true) in C.
+      rewrite N in C. destruct o0; try discriminate. destruct o; simpl in Sub; try contradiction.
+      split; auto. eapply coll_write_set; eauto. now apply scalar_simple.
+  Qed.
+
+  (* the shrinking write *)
+  Lemma shrink_write sp fam fc o F :
+    leaf_coll sp fam -> cstable F ->
+    (forall h, Inv h -> F h -> refcount h fc = 0 \/ only_view ct h fc (a_ty sp)) ->
+    T (fun h => (IF F h /\ conf ct h (VRef fc) sp) /\ exists o0, nth_error h fc = Some o0 /\ sub_obj o o0)
+      (write fc o) (fun _ h => IF F h /\ conf ct h (VRef fc) sp) (IF F).
+  Proof.
+    intros (Hf & Sc & _) [_ SW] HV. apply T_write.
+    intros h [[[I Fh] C] [o0 [N Sub]]]. split; [apply nth_error_Some; congruence|].
+    destruct (conf_shrink h fc (a_ty sp) o0 o Sc C N Sub) as [K S].
+    destruct (conf_norefs ct h fc (a_ty sp) o0 Sc C N) as [_ S0].
+    assert (Nr : norefs o).
+    { eapply (conf_norefs ct _ fc (a_ty sp) o Sc K). apply nth_error_set_nth_same. apply nth_error_Some. congruence. }
+    assert (Le : forall c', orefs c' o <= orefs c' o0).
+    { intro c'. rewrite (norefs_orefs _ c' Nr). lia. }
+    split; [split|exact K].
+    - eapply Inv_write_container; eauto.
+      intros t Vt Ft. destruct (HV h I Fh) as [Z|V].
+      + exfalso. eapply refcount_zero_not_viewed; eauto.
+      + rewrite (V t Vt Ft). exact K.
+    - eapply SW; eauto.
+  Qed.
+
+  Definition PC sp fc F := fun h => IF F h /\ conf ct h (VRef fc) sp.
+
+  Lemma remove_seq sp fc v bi F :
+    leaf_coll sp FSeq -> cstable F ->
+    (forall h, Inv h -> F h -> refcount h fc = 0 \/ only_view ct h fc (a_ty sp)) ->
+    T (PC sp fc F)
+      (ex <- seq_extractor ct sp (VRef fc) v true bi ;;
+       match fst ex with
+       | VNone => ret tt
+       | VInt _ | VBool _ =>
+           let i := match fst ex with VInt z => z | VBool true => 1%Z | _ => 0%Z end in
+           p <- read_list (VRef fc) ;;
+           match norm_index (zlen (snd p)) i with
+           | Some n => write (fst p) (OList (remove_at n (snd p)))
+           | None => fail IndexErr end
+       | _ => fail TypeErr end)
+      (fun _ h => PC sp fc F h) (IF F).
+  Proof.
+    intros Hl SF HV. unfold PC.
+    assert (PE : forall h, IF F h /\ conf ct h (VRef fc) sp -> IF F h) by tauto.
+    eapply T_bind; [apply T_hpure; [apply hpure_seq_extractor|exact PE]|]. intros ex.
+    assert (W : T (fun h => IF F h /\ conf ct h (VRef fc) sp)
+                  (let i := match fst ex with VInt z => z | VBool true => 1%Z | _ => 0%Z end in
+                   p <- read_list (VRef fc) ;;
+                   match norm_index (zlen (snd p)) i with
+                   | Some n => write (fst p) (OList (remove_at n (snd p)))
+                   | None => fail IndexErr end)
+                  (fun _ h => IF F h /\ conf ct h (VRef fc) sp) (IF F)).
+    { cbv zeta. eapply T_bind; [apply T_read_list; exact PE|]. intros [c xs]. cbn [fst snd].
+      destruct (norm_index _ _) as [n|]; [|apply T_fail; tauto].
+      intros s [H [-> N]]. apply (shrink_write sp FSeq fc (OList (remove_at n xs)) F Hl SF HV s).
+      split; auto. exists (OList xs). split; auto. simpl. intros f. apply forallb_remove_at. }
+    destruct (fst ex); try (apply T_fail; tauto); try exact W. apply T_ret. auto.
+  Qed.
+
+  Lemma remove_map sp fc v F :
+    leaf_coll sp FMap -> cstable F ->
+    (forall h, Inv h -> F h -> refcount h fc = 0 \/ only_view ct h fc (a_ty sp)) ->
+    T (PC sp fc F)
+      (ex <- map_extractor ct (VRef fc) v true ;;
+       p <- read_dict (VRef fc) ;;
+       h' <- get_heap ;;
+       write (fst p) (ODict (filter (fun q => negb (val_eqb FUEL ct h' (fst q) (fst ex))) (snd p))))
+      (fun _ h => PC sp fc F h) (IF F).
+  Proof.
+    intros Hl SF HV. unfold PC.
+    assert (PE : forall h, IF F h /\ conf ct h (VRef fc) sp -> IF F h) by tauto.
+    eapply T_bind; [apply T_hpure; [apply hpure_map_extractor|exact PE]|]. intros ex.
+    eapply T_bind; [apply T_read_dict; exact PE|]. intros [c xs]. cbn [fst snd].
+    eapply T_bind; [apply T_get_heap|]. intros h'.
+    intros s [_ [H [-> N]]]. apply (shrink_write sp FMap fc _ F Hl SF HV s).
+    split; auto. exists (ODict xs). split; auto. simpl. intros f. apply forallb_filter.
+  Qed.
+
+  Lemma T_set_discard (P : heap_t -> Prop) xs v (E : heap_t -> Prop) :
+    (forall h, P h -> E h) ->
+    T P (set_discard ct xs v) (fun xs' h => P h /\ exists g, xs' = filter g xs) E.
+  Proof.
+    intros HE. unfold set_discard. destruct (negb (hashable v)); [apply T_fail; auto|].
+    intros s Ps. simpl. split; auto. eauto.
+  Qed.
+
+  Lemma remove_set sp fc v F :
+    leaf_coll sp FSet -> cstable F ->
+    (forall h, Inv h -> F h -> refcount h fc = 0 \/ only_view ct h fc (a_ty sp)) ->
+    T (PC sp fc F)
+      (ex <- set_extractor ct (VRef fc) v true ;;
+       p <- read_set (VRef fc) ;;
+       xs <- set_discard ct (snd p) (fst ex) ;;
+       write (fst p) (OSet xs))
+      (fun _ h => PC sp fc F h) (IF F).
+  Proof.
+    intros Hl SF HV. unfold PC.
+    assert (PE : forall h, IF F h /\ conf ct h (VRef fc) sp -> IF F h) by tauto.
+    eapply T_bind; [apply T_hpure; [apply hpure_set_extractor|exact PE]|]. intros ex.
+    eapply T_bind; [apply T_read_set; exact PE|]. intros [c xs]. cbn [fst snd].
+    eapply T_bind; [apply T_set_discard|]. { intros h [H _]. auto. }
+    intros xs'.
+    intros s [[H [-> N]] [g ->]]. apply (shrink_write sp FSet fc _ F Hl SF HV s).
+    split; auto. exists (OSet xs). split; auto. simpl. intros f. apply forallb_filter.
+  Qed.
+End Remove.
+
+Section WithoutItem.
+  Variable ct : ctable.
+  Hypothesis Hflat : flat_table ct.
+  Hypothesis Hninv : no_inval_table ct.
+  Notation Inv := (Inv ct).
+  Notation rec := (exec ct XFUEL).
+  Local Opaque exec XFUEL.
+
+  Definition remove_code (sp : attr_spec) (c : val) (hh : hargs) : M unit :=
+    match family_of (a_ty sp) with
+    | Some FSeq =>
+        ex <- seq_extractor ct sp c (pos0 hh) true (tri_of (h_by_index hh)) ;;
+        (match fst ex with
+         | VNone => ret tt
+         | VInt _ | VBool _ =>
+             let i := match fst ex with VInt z => z | VBool true => 1%Z | _ => 0%Z end in
+             p <- read_list c ;;
+             match norm_index (zlen (snd p)) i with
+             | Some n => write (fst p) (OList (remove_at n (snd p)))
+             | None => fail IndexErr end
+         | _ => fail TypeErr end)
+    | Some FMap =>
+        ex <- map_extractor ct c (pos0 hh) true ;;
+        p <- read_dict c ;;
+        h' <- get_heap ;;
+        write (fst p) (ODict (filter (fun q => negb (val_eqb FUEL ct h' (fst q) (fst ex))) (snd p)))
+    | Some FSet =>
+        ex <- set_extractor ct c (pos0 hh) true ;;
+        p <- read_set c ;;
+        xs <- set_discard ct (snd p) (fst ex) ;;
+        write (fst p) (OSet xs)
+    | None => fail AttrErr end.
+
+  Lemma remove_code_inv sp fam fc hh F :
+    leaf_coll sp fam -> cstable F ->
+    (forall h, Inv h -> F h -> refcount h fc = 0 \/ only_view ct h fc (a_ty sp)) ->
+    T (fun h => IF ct F h /\ conf ct h (VRef fc) sp)
+      (remove_code sp (VRef fc) hh ;;; ret (VRef fc))
+      (fun r h => (IF ct F h /\ conf ct h (VRef fc) sp) /\ r = VRef fc) (IF ct F).
+  Proof.
+    intros Hl SF HV. pose proof Hl as (Hf & _).
+    eapply T_bind with (Q := fun _ h => IF ct F h /\ conf ct h (VRef fc) sp);
+      [|intros ?; apply T_ret; auto].
+    unfold remove_code. rewrite Hf.
+    destruct fam.
+    - apply (remove_seq ct Hflat sp fc _ _ F Hl SF HV).
+    - apply (remove_map ct Hflat sp fc _ F Hl SF HV).
+    - apply (remove_set ct Hflat sp fc _ F Hl SF HV).
+  Qed.
+
+  (* without_<item>(x, _inplace=True) on a leaf collection attribute, every family *)
+  Theorem without_item_inplace_coll l a hh s :
+    h_inplace hh = true ->
+    Inv (heap s) -> recv_leafc ct l a (heap s) -> dflt_missingc ct l a (heap s) ->
+    Inv (heap (snd (run_helper ct l (HWithoutItem a) hh s))).
+  Proof.
+    intros Hin I R D. unfold run_helper. destruct (negb (h_if hh)); [exact I|]. rewrite Hin.
+    cbv zeta.
+    apply (elem_prefix ct l a s (fun r c00 =>
+      c <- (if is_missing c00 then create_collection rec (snd r) else ret c00) ;;
+      (remove_code (snd r) c hh ;;; mutate_attr ct rec l a c true false false false)) I R D).
+    intros cl d k sp fam N Hk Ha Hl. pose proof Hl as (Hf & _). cbn [snd].
+    split.
+    - intros fc As. cbn [is_missing]. rewrite bind_ret_l.
+      eapply (T_run _ _ _ _ Inv s); [apply (T_reassoc _ (remove_code sp (VRef fc) hh) (VRef fc) (fun c => mutate_attr ct rec l a c true false false false)); eapply (tail_held ct Hflat Hninv l cl d k a sp fam fc); eauto| | |]; auto.
+      + intros F SF HV. apply (remove_code_inv sp fam fc hh F Hl SF HV).
+      + split; auto.
+    - intros As. cbn [is_missing].
+      pose proof (create_coll ct Hflat rec sp fam (inst_at l cl d) Hf (astable_inst_at l cl d) s (conj I N)) as Cr.
+      unfold bind at 1.
+      destruct (create_collection rec sp s) as [[c1|err] s1]; [|exact (proj1 Cr)].
+      destruct Cr as [[I1 N1] [fc [-> [L C]]]].
+      eapply (T_run _ _ _ _ Inv s1); [apply (T_reassoc _ (remove_code sp (VRef fc) hh) (VRef fc) (fun c => mutate_attr ct rec l a c true false false false)); eapply (tail_loose ct Hflat Hninv l cl d k a sp fam fc); eauto| | |]; auto.
+      + intros F SF HV. apply (remove_code_inv sp fam fc hh F Hl SF HV).
+      + cbv beta. split; auto.
+  Qed.
+
+  Theorem step_without_item_inplace_coll roots x a hh s :
+    h_inplace hh = true -> Inv (heap s) ->
+    (forall l, nth x roots VNone = VRef l -> recv_leafc ct l a (heap s) /\ dflt_missingc ct l a (heap s)) ->
+    Inv (heap (snd (step ct roots (OpHelper x (HWithoutItem a) hh) s))).
+  Proof.
+    intros Hin I R. unfold step.
+    destruct (nth x roots VNone) as [| | | | | | | |l] eqn:Er; try exact I.
+    cbn [loc_of]. rewrite bind_ret_l. destruct (R l eq_refl). apply without_item_inplace_coll; auto.
+  Qed.
+End WithoutItem.
+
+(* ------------------------------------------------------------------ *)
+(** * Computable guards and the combined statement *)
+Definition leaf_coll_b (sp : attr_spec) : bool :=
+  match family_of (a_ty sp) with
+  | Some _ => scalar_coll (a_ty sp) && (ty_depth (a_ty sp) <? FUEL)
+              && is_none (a_prepare sp) && is_none (a_prepare_item sp)
+  | None => false
+  end.
+
+Lemma leaf_coll_b_sound sp : leaf_coll_b sp = true -> exists fam, leaf_coll sp fam.
+Proof.
+  unfold leaf_coll_b, leaf_coll. destruct (family_of (a_ty sp)) as [fam|]; [|discriminate].
+  rewrite !andb_true_iff. intros [[[H1 H2] H3] H4]. exists fam. split; auto. split; auto.
+  split; [unfold shallow; now apply Nat.ltb_lt|].
+  destruct (a_prepare sp), (a_prepare_item sp); simpl in *; try discriminate; auto.
+Qed.
+
+Definition recv_leafc_b (ct : ctable) (h : heap_t) (recv : val) (a : aid) : bool :=
+  match recv with
+  | VRef l =>
+      match nth_error h l with
+      | Some (OInst cl d) =>
+          match lookup_cls ct cl with
+          | Some k => match lookup_attr k a with Some sp => leaf_coll_b sp | None => true end
+          | None => true end
+      | _ => true end
+  | _ => true
+  end.
+
+Lemma recv_leafc_b_sound ct h recv a :
+  recv_leafc_b ct h recv a = true -> forall l, recv = VRef l -> recv_leafc ct l a h.
+Proof.
+  intros H l -> cl d k sp N Hk Ha. simpl in H. rewrite N, Hk, Ha in H. now apply leaf_coll_b_sound.
+Qed.
+
+(* Operations covered.  A *leaf collection attribute* is annotated List[e], Set[e] or
+   Dict[k,e] with scalar k, e (int/str/bool/None, Optional/Union of those) and has no
+   _prepare_<attr> / _prepare_<item> callback.
+   - obj.a = v and obj.with_<a>(v, _inplace=True): a leaf (or unmanaged) attribute, v a
+     value nobody references (args_fresh; any value: scalars, conforming or ill-typed
+     containers, dicts, other instances);
+   - obj.with_<item>(..., _inplace=True) without keyword attributes and
+     obj.without_<item>(..., _inplace=True): a leaf attribute that holds a collection or
+     has no class-level default; ANY item / key / index arguments;
+   - the caller building a container of scalars. *)
+Definition owned_opc_b (ct : ctable) (h : heap_t) (roots : list val) (o : op) : bool :=
+  match o with
+  | OpSetAttr x a v => loose_b h v && recv_leafc_b ct h (nth x roots VNone) a
+  | OpHelper x (HWith a) hh =>
+      h_inplace hh && is_none (h_kw hh) && loose_b h (pos0 hh) && recv_leafc_b ct h (nth x roots VNone) a
+  | OpHelper x (HWithItem a) hh =>
+      h_inplace hh && is_none (h_kw hh) && recv_leafc_b ct h (nth x roots VNone) a
+      && dflt_missing_b ct h (nth x roots VNone) a
+  | OpHelper x (HWithoutItem a) hh =>
+      h_inplace hh && recv_leafc_b ct h (nth x roots VNone) a && dflt_missing_b ct h (nth x roots VNone) a
+  | OpAlloc ob => (shape ob <? 3) && norefs_b ob
+  | _ => false
+  end.
+
+Theorem step_preserves_owned_coll ct roots o s :
+  flat_table ct -> no_inval_b ct = true -> owned_opc_b ct (heap s) roots o = true ->
+  TypeInv ct s -> Owned ct (heap s) ->
+  TypeInv ct (snd (step ct roots o s)) /\ Owned ct (heap (snd (step ct roots o s))).
+Proof.
+  intros Hf Hn Hop T O. apply no_inval_b_sound in Hn.
+  assert (I : Inv ct (heap s)) by (split; auto).
+  change (Inv ct (heap (snd (step ct roots o s)))).
+  destruct o as [| x a v | | x hp hh | | ob]; simpl in Hop; try discriminate.
+  - apply andb_true_iff in Hop. destruct Hop as [H1 H2].
+    apply step_setattr_coll; auto; [now apply loose_b_iff|now apply recv_leafc_b_sound].
+  - destruct hp; try discriminate.
+    + rewrite !andb_true_iff in Hop. destruct Hop as [[[H1 H2] H3] H4].
+      apply step_with_inplace_coll; auto; [now apply loose_b_iff| |now apply recv_leafc_b_sound].
+      destruct (h_kw hh); auto; discriminate.
+    + rewrite !andb_true_iff in Hop. destruct Hop as [[[H1 H2] H3] H4].
+      apply step_with_item_inplace_coll; auto.
+      * destruct (h_kw hh); auto; discriminate.
+      * intros l El. split; [eapply recv_leafc_b_sound; eauto|].
+        exact (dflt_missing_b_sound ct (heap s) _ a H4 l El).
+    + rewrite !andb_true_iff in Hop. destruct Hop as [[H1 H3] H4].
+      apply step_without_item_inplace_coll; auto.
+      intros l El. split; [eapply recv_leafc_b_sound; eauto|].
+      exact (dflt_missing_b_sound ct (heap s) _ a H4 l El).
+  - apply andb_true_iff in Hop. destruct Hop as [H1 H2]. simpl.
+    apply Inv_alloc; auto; [now apply Nat.ltb_lt|now apply norefs_b_sound].
+Qed.
